@@ -14,6 +14,7 @@ fn main() {
         "C20" => vh::c20::main(mode),
         "C19" => vh::c19::main(mode),
         "C17" => vh::c17::main(mode),
+        "C01" => vh::c01::main(mode),
         _ => {
             eprintln!("unknown property {id}");
             2
